@@ -19,6 +19,7 @@ class Server(object):
         self.shift_end = False
         self.next_end_service_date = float("Inf")
         self.busy_time = 0.0
+        self.wrapped_up_busy_time = 0
 
     @property
     def utilisation(self):
